@@ -31,6 +31,9 @@ def packBits : List Bool → List UInt8
 
 def handle (l : Line) : Option Verdict :=
   match l.op with
+  | "crc_big" => some <|
+    -- a length beyond 32 bits (zero bytes in a no-reserve mapping): judged on the C side against zlib applied piecewise
+    verdict [] []
   | "crc" => some <|
     match l.inHex "data", l.outNat "r" with
     | some d, some r =>
